@@ -82,6 +82,8 @@ def setup_env() -> None:
     os.environ.setdefault("PYTHONHASHSEED", "0")
     os.environ.setdefault("NUMBA_NUM_THREADS", "1")
     os.environ.setdefault("OMP_NUM_THREADS", "1")
+    # idle OpenMP threads must sleep, not spin: 16 workers x N numba threads share 16 cores
+    os.environ.setdefault("OMP_WAIT_POLICY", "passive")
     os.environ.setdefault("OPENBLAS_NUM_THREADS", "1")
     os.environ.setdefault("MKL_NUM_THREADS", "1")
     os.environ["PYTHONDONTWRITEBYTECODE"] = "1"
@@ -109,9 +111,27 @@ def _patch_numba_cache() -> None:
         return
     orig = numba.njit
 
+    def _takes_callable(func):
+        # kernels that receive another dispatcher as an argument (loop_refinement's `method`) cannot be cached
+        # reliably: numba re-pickles the whole index, including Dispatcher-typed signatures whose weakly referenced
+        # objects may be gone ("underlying object has vanished")
+        code = getattr(func, "__code__", None)
+        return code is not None and "method" in code.co_varnames[: code.co_argcount]
+
     def njit(*args, **kwargs):
-        kwargs.setdefault("cache", True)
-        return orig(*args, **kwargs)
+        if "cache" in kwargs:
+            return orig(*args, **kwargs)
+        if args and callable(args[0]) and not isinstance(args[0], str):
+            if _takes_callable(args[0]):
+                return orig(*args, **kwargs)
+            return orig(*args, cache=True, **kwargs)
+
+        def deco(func):
+            if _takes_callable(func):
+                return orig(*args, **kwargs)(func)
+            return orig(*args, cache=True, **kwargs)(func)
+
+        return deco
 
     numba.njit = njit
     numba._mc_cache_patch = True  # pylint: disable=protected-access
@@ -394,6 +414,7 @@ def run_property(modname: str, tier: str, seed: int) -> int:
         if pool is not None:
             _worker_init(modname, worker_env)
         for k, v in sorted(viol_by_key.items()):
+            rekeys = []
             if v.get("no_replay"):
                 confirmed = True
             else:
@@ -403,8 +424,10 @@ def run_property(modname: str, tier: str, seed: int) -> int:
                     print(res["harness_error"])
                     return 2
                 confirmed = any(x["key"] == k for x in res["viol"])
+                rekeys = [x["key"] for x in res["viol"]]
             if not confirmed:
-                print(f"HARNESS ERROR: violation {k} did not reproduce on re-execution (non-determinism)")
+                print(f"HARNESS ERROR: violation {k} did not reproduce on re-execution (non-determinism); "
+                      f"re-execution gave {rekeys}")
                 print(json.dumps(jsonable(v), default=str)[:3000])
                 return 2
             match = [e for e in known if e["key"] == k]
